@@ -723,13 +723,15 @@ impl<H: NodeHasher> PageWalker<H> {
         let stack_top = self.stack.last_mut().unwrap();
         stack_top.page.set_node(node_index, node);
 
+        // The change is always recorded: if the page is populated again later in the same pass
+        // the clear bit is erased, and the diff (which WAL recovery applies to the on-disk page)
+        // must still carry the node that was zeroed here.
+        stack_top.diff.set_changed(node_index);
         if self.position.is_first_layer_in_page()
             && node == TERMINATOR
             && sibling_node == TERMINATOR
         {
             stack_top.diff.set_cleared();
-        } else {
-            stack_top.diff.set_changed(node_index);
         }
     }
 
